@@ -112,6 +112,14 @@ func (x *Exec) buildQuery(o *Obligation, depth int) *Query {
 			}
 		}
 	}
+	if len(mentionsName(assumes, o.Goal, "ext.unicode.Is.Zs")) > 0 {
+		// assumed fact about the dependency: the only ASCII code point of category Zs is U+0020
+		cv := Var("c!zs", SInt)
+		zs := App("ext.unicode.Is.Zs", SBool, cv)
+		ax := Forall([]*Term{cv}, Implies(And(Le(IntC(0), cv), Le(cv, IntC(0x7f))), Eq(zs, Eq(cv, IntC(0x20)))))
+		ax.Pats = [][]*Term{{zs}}
+		assumes = append(assumes, ax)
+	}
 	goal := o.Goal
 	assumes, goal = expandQuantifiers(assumes, goal)
 	return &Query{Name: o.Name, Assumes: assumes, Goal: goal}
